@@ -270,7 +270,7 @@ def build_driver():
     newest = max(os.path.getmtime(p) for p in srcs)
     if os.path.exists(drv) and os.path.getmtime(drv) >= newest:
         return drv
-    rc, out = coq_make(["theories/Model/All.vo", "theories/Model/Build.vo", "theories/Model/Fancy.vo", "theories/Model/Task.vo", "theories/Model/Dumb.vo"])
+    rc, out = coq_make(["theories/Model/All.vo", "theories/Model/Build.vo", "theories/Model/Fancy.vo", "theories/Model/Task.vo", "theories/Model/Dumb.vo", "theories/Model/Cli.vo"])
     if rc != 0:
         raise RuntimeError("coq model build failed:\n" + out[-3000:])
     sh([os.path.join(VERIF, "ocaml", "build.sh")], check=True, timeout=1200)
